@@ -720,9 +720,27 @@ func c01Gen(t *rapid.T) c01Case {
 			r.Contig = nil
 			c.Recs = []gbRec{r}
 		}
+		// edit indices: mostly aligned with (or next to) the ends of location parts, where edits change a location's shape
+		hot := []int{0}
+		for _, r := range c.Recs {
+			hot = append(hot, r.ResLen)
+			for _, f := range r.Feats {
+				for _, x := range f.Loc.leaves() {
+					hot = append(hot, x.A-1, x.A, x.A+1, x.B-1, x.B, x.B+1)
+				}
+			}
+		}
 		n := rapid.IntRange(1, 4).Draw(t, "nops")
 		for i := 0; i < n; i++ {
-			c.Ops = append(c.Ops, c01Op{Op: rapid.SampledFrom(c01OpNames).Draw(t, "op"), I: rapid.IntRange(0, 300).Draw(t, "i"), N: rapid.IntRange(0, 300).Draw(t, "n")})
+			op := c01Op{Op: rapid.SampledFrom(c01OpNames).Draw(t, "op"), I: rapid.IntRange(0, 300).Draw(t, "i"), N: rapid.IntRange(0, 300).Draw(t, "n")}
+			if rapid.IntRange(0, 3).Draw(t, "aligned") > 0 {
+				a, b := maxInt(rapid.SampledFrom(hot).Draw(t, "hi"), 0), maxInt(rapid.SampledFrom(hot).Draw(t, "hj"), 0)
+				if a > b {
+					a, b = b, a
+				}
+				op.I, op.N = a, b-a
+			}
+			c.Ops = append(c.Ops, op)
 		}
 		return c
 	default:
@@ -779,6 +797,47 @@ func TestC01(t *testing.T) {
 		}
 	}
 	e3.done(thorough())
+	// every single edit of every small location shape: L residues, one feature whose location is a leaf, a complement,
+	// or a join/order of two leaves; delete/erase/slice with every (i,n), insert/embed at every i, every rotation, reverse
+	e4 := enumPart(t, c01Prop, st, "pipeline-small")
+	smallLs := []int{4}
+	if thorough() {
+		smallLs = []int{3, 5, 6}
+	}
+	for _, L := range smallLs {
+		leaves := smallLocs(L, true, false)
+		var locs []Loc
+		for _, a := range leaves {
+			locs = append(locs, a, lco(a))
+		}
+		for _, a := range leaves {
+			for _, b := range leaves {
+				locs = append(locs, ljn(a, b), lor(a, b), lco(ljn(a, b)))
+			}
+		}
+		for _, raw := range locs {
+			canon, ok := fromGts(toGts(raw))
+			if !ok {
+				continue
+			}
+			rec := gbRec{Locus: "SMALL", Mol: "DNA", Div: "SYN", Date: [3]int{2020, 2, 29}, Def: "small", Acc: "A", Ver: "A.1", ResLen: L, ResSeed: L,
+				Feats: []Feat{{Key: "gene", Loc: canon, Quals: [][]string{{"gene", "g"}}}}}
+			var ops []c01Op
+			for i := 0; i <= L; i++ {
+				ops = append(ops, c01Op{Op: "insert", I: i}, c01Op{Op: "embed", I: i}, c01Op{Op: "rotate", I: i})
+				for n := 0; i+n <= L; n++ {
+					ops = append(ops, c01Op{Op: "delete", I: i, N: n}, c01Op{Op: "erase", I: i, N: n}, c01Op{Op: "slice", I: i, N: n})
+				}
+			}
+			ops = append(ops, c01Op{Op: "reverse"}, c01Op{Op: "concat"})
+			for _, op := range ops {
+				if !e4.try(c01Case{Mode: "pipeline", Recs: []gbRec{rec}, Ops: []c01Op{op}}) {
+					return
+				}
+			}
+		}
+	}
+	e4.done(true)
 	rapidPart(t, c01Prop, st, "rapid", pick(3000, 25000), c01Gen)
 }
 
